@@ -624,4 +624,174 @@ theorem lookup_merge_msgBins (E : Content) (ord : MapOrder) (hl : ord.Lawful) (p
 
 end model
 
+/-! ## 4. the paginated store's own `MergeWithProto` -/
+
+section pagMerge
+open DDS.GenPag DDS.PStore DDS.Gen.Paginated DDS.Gen.PaginatedProto
+
+/-- the regenerated `AddWithCount` on a list of calls -/
+def gAdds (fuel : Nat) (grow : Int → Int → Int) : GP → List (Int × Rat) → Res GP
+  | g, [] => .ok g
+  | g, (i, c) :: rest => (BufferedPaginatedStore.AddWithCount fuel grow g i c).bind (fun g' => gAdds fuel grow g' rest)
+
+theorem gAdds_append (fuel : Nat) (grow : Int → Int → Int) (a b : List (Int × Rat)) : ∀ g : GP,
+    gAdds fuel grow g (a ++ b) = (gAdds fuel grow g a).bind (fun g' => gAdds fuel grow g' b) := by
+  induction a with
+  | nil => intro g; rfl
+  | cons p a ih =>
+    intro g
+    obtain ⟨i, c⟩ := p
+    simp only [List.cons_append, gAdds]
+    cases BufferedPaginatedStore.AddWithCount fuel grow g i c with
+    | ok g' => exact ih g'
+    | panic => rfl
+    | nofuel => rfl
+
+/-- a `Res` as the outcome of a loop that never returns early -/
+def toLoop {α ρ : Type} : Res α → Loop α ρ
+  | .ok a => .done a
+  | .panic => .panic
+  | .nofuel => .nofuel
+
+theorem pm_loop2 (fuel : Nat) (grow : Int → Int → Int) (l : List (Int × Rat)) : ∀ g : GP,
+    BufferedPaginatedStore.MergeWithProto.loop2 fuel grow l g
+      = toLoop (gAdds fuel grow g (l.map (fun p => (wrap32 p.1, p.2)))) := by
+  induction l with
+  | nil => intro g; rfl
+  | cons p l ih =>
+    intro g
+    obtain ⟨i, c⟩ := p
+    unfold BufferedPaginatedStore.MergeWithProto.loop2
+    simp only [List.map_cons, gAdds]
+    show Res.bindL (BufferedPaginatedStore.AddWithCount fuel grow g (wrap32 i) c) _ = _
+    cases BufferedPaginatedStore.AddWithCount fuel grow g (wrap32 i) c with
+    | ok g' => exact ih g'
+    | panic => rfl
+    | nofuel => rfl
+
+theorem pm_loop1 (fuel : Nat) (grow : Int → Int → Int) (pb : GoPb.Store Rat) (l : List Rat) : ∀ (k : Nat) (g : GP),
+    BufferedPaginatedStore.MergeWithProto.loop1 fuel grow pb l (k : Int) g
+      = toLoop (gAdds fuel grow g ((l.zipIdx k).map
+          (fun cv => ((cv.2 : Int) + pb.ContiguousBinIndexOffset.toInt, cv.1)))) := by
+  induction l with
+  | nil => intro k g; rfl
+  | cons c l ih =>
+    intro k g
+    unfold BufferedPaginatedStore.MergeWithProto.loop1
+    simp only [List.zipIdx_cons, List.map_cons, gAdds]
+    rw [Int.add_comm]
+    cases BufferedPaginatedStore.AddWithCount fuel grow g ((k : Int) + pb.ContiguousBinIndexOffset.toInt) c with
+    | ok g' =>
+      have := ih (k + 1) g'
+      rw [Int.natCast_add] at this
+      exact this
+    | panic => rfl
+    | nofuel => rfl
+
+/-- paginated `MergeWithProto` (every store, message, oracle, fuel): the regenerated `AddWithCount` run on the calls of
+    the message -/
+theorem pag_mergeWithProto_eq (fuel : Nat) (ord : MapOrder) (grow : Int → Int → Int) (g : GP) (pb : GoPb.Store Rat) :
+    BufferedPaginatedStore.MergeWithProto fuel ord grow g pb = gAdds fuel grow g (msgCalls ord pb) := by
+  unfold BufferedPaginatedStore.MergeWithProto msgCalls
+  rw [pm_loop2, gAdds_append]
+  cases gAdds fuel grow g ((mrange ord pb.BinCounts).map (fun p => (wrap32 p.1, p.2))) with
+  | ok g' =>
+    have := pm_loop1 fuel grow pb pb.ContiguousBinCounts 0 g'
+    rw [Int.natCast_zero] at this
+    simp only [toLoop, Loop.elim_done, Res.bind_ok, this]
+    cases gAdds fuel grow g' (pb.ContiguousBinCounts.zipIdx.map
+      (fun cv => ((cv.2 : Int) + pb.ContiguousBinIndexOffset.toInt, cv.1))) <;> rfl
+  | panic => rfl
+  | nofuel => rfl
+
+/-- the model's adds under SOME compaction schedule (the bit `len(buffer) == cap(buffer)` of each call is hidden state
+    of the Go runtime): `none` = one of the adds panics -/
+inductive Sched : PStore → List (Int × Rat) → Option PStore → Prop
+  | nil (s : PStore) : Sched s [] (some s)
+  | stepNone (s : PStore) (i : Int) (c : Rat) (rest : List (Int × Rat)) (b : Bool) :
+      s.addWithCount i c b = none → Sched s ((i, c) :: rest) none
+  | stepSome (s : PStore) (i : Int) (c : Rat) (rest : List (Int × Rat)) (b : Bool) (s' : PStore) (r : Option PStore) :
+      s.addWithCount i c b = some s' → Sched s' rest r → Sched s ((i, c) :: rest) r
+
+/-- fuel for the calls: the maximum of `addFuel` over the stores reachable under either value of each bit (a
+    function of the store and the calls) -/
+def pagFuel : PStore → List (Int × Rat) → Nat
+  | _, [] => 0
+  | s, (i, c) :: rest =>
+    max (addFuel s i)
+      (max (match s.addWithCount i c true with | some s' => pagFuel s' rest | none => 0)
+           (match s.addWithCount i c false with | some s' => pagFuel s' rest | none => 0))
+
+theorem pagFuel_step (s s' : PStore) (i : Int) (c : Rat) (rest : List (Int × Rat)) (b : Bool)
+    (h : s.addWithCount i c b = some s') :
+    addFuel s i ≤ pagFuel s ((i, c) :: rest) ∧ pagFuel s' rest ≤ pagFuel s ((i, c) :: rest) := by
+  cases b <;> simp only [pagFuel, h] <;> omega
+
+/-- SIMULATION (every store, capacity, `grow`, calls; NO invariant): with `pagFuel s calls ≤ fuel` the regenerated adds
+    follow the model under some compaction schedule — panic exactly when the model does, never out of fuel -/
+theorem gAdds_sim (fuel : Nat) (grow : Int → Int → Int) : ∀ (calls : List (Int × Rat)) (s : PStore) (cap : Int),
+    pagFuel s calls ≤ fuel → ∃ r, Sched s calls r ∧ ROk (gAdds fuel grow (toGen s cap) calls) r := by
+  intro calls
+  induction calls with
+  | nil => intro s cap _; exact ⟨some s, Sched.nil s, toGen s cap, rfl, cap, rfl⟩
+  | cons p rest ih =>
+    intro s cap hf
+    obtain ⟨i, c⟩ := p
+    cases hm : s.addWithCount i c (decide ((s.buffer.length : Int) = cap)) with
+    | none =>
+      have hfu : addFuel s i ≤ fuel := by
+        have : addFuel s i ≤ pagFuel s ((i, c) :: rest) := by simp only [pagFuel]; omega
+        omega
+      have h := addWithCountSpec s cap grow i c fuel hfu
+      rw [hm] at h
+      refine ⟨none, Sched.stepNone s i c rest _ hm, ?_⟩
+      show gAdds fuel grow (toGen s cap) ((i, c) :: rest) = .panic
+      simp only [gAdds]
+      rw [show BufferedPaginatedStore.AddWithCount fuel grow (toGen s cap) i c = .panic from h]; rfl
+    | some s' =>
+      obtain ⟨f1, f2⟩ := pagFuel_step s s' i c rest _ hm
+      have h := addWithCountSpec s cap grow i c fuel (by omega)
+      rw [hm] at h
+      obtain ⟨g', hg', cap', rfl⟩ := h
+      obtain ⟨r, hr1, hr2⟩ := ih s' cap' (by omega)
+      refine ⟨r, Sched.stepSome s i c rest _ s' r hm hr1, ?_⟩
+      simp only [gAdds, hg', Res.bind_ok]
+      exact hr2
+
+/-- under the store invariant, with `int32` indexes and weights `≥ 0`, every schedule succeeds and ends with the
+    content merged with the bins (zero-weight bins included: they add nothing) -/
+theorem sched_content (calls : List (Int × Rat)) (s : PStore) (r : Option PStore) (h : Sched s calls r) :
+    Inv s → (∀ p ∈ calls, Idx32 p.1 ∧ 0 ≤ p.2) →
+    ∃ s', r = some s' ∧ Inv s' ∧ content s' = (content s).merge calls := by
+  induction h with
+  | nil s => intro hI _; exact ⟨s, rfl, hI, rfl⟩
+  | stepNone s i c rest b hm =>
+    intro hI hc
+    obtain ⟨hi, hw⟩ := hc (i, c) (List.mem_cons_self ..)
+    obtain ⟨s', h1, _⟩ := Props.C04Pag.add_content s hI i hi c hw b
+    rw [hm] at h1; cases h1
+  | stepSome s i c rest b s' r hm _ ih =>
+    intro hI hc
+    obtain ⟨hi, hw⟩ := hc (i, c) (List.mem_cons_self ..)
+    obtain ⟨s1, h1, h2, h3⟩ := Props.C04Pag.add_content s hI i hi c hw b
+    rw [hm] at h1; cases h1
+    obtain ⟨s2, e1, e2, e3⟩ := ih h2 (fun p hp => hc p (List.mem_cons_of_mem _ hp))
+    exact ⟨s2, e1, e2, by rw [e3, h3]; rfl⟩
+
+/-- MAIN (paginated `MergeWithProto`): a store with the invariant, a message with weights `≥ 0` whose contiguous
+    indexes are `int32` (the map keys are by type), any oracle, capacity and `grow`: the receiver ends as the image of a
+    model store with the invariant whose content is the receiver's merged with the message's bins -/
+theorem pag_mergeWithProto (s : PStore) (hI : Inv s) (cap : Int) (grow : Int → Int → Int) (ord : MapOrder)
+    (pb : GoPb.Store Rat) (hc : ∀ p ∈ msgCalls ord pb, Idx32 p.1 ∧ 0 ≤ p.2) (fuel : Nat)
+    (hf : pagFuel s (msgCalls ord pb) ≤ fuel) :
+    ∃ s' cap', BufferedPaginatedStore.MergeWithProto fuel ord grow (toGen s cap) pb = .ok (toGen s' cap') ∧
+      Inv s' ∧ content s' = (content s).merge (msgCalls ord pb) := by
+  rw [pag_mergeWithProto_eq]
+  obtain ⟨r, hr1, hr2⟩ := gAdds_sim fuel grow (msgCalls ord pb) s cap hf
+  obtain ⟨s', rfl, h2, h3⟩ := sched_content _ s r hr1 hI hc
+  obtain ⟨g', hg', cap', rfl⟩ := hr2
+  exact ⟨s', cap', hg', h2, h3⟩
+
+end pagMerge
+
 end DDS.GenProtoStore
